@@ -1103,6 +1103,8 @@ def r11_optional_parts_independent(prog, res):
     from engines import call_args as _args, enclosing_conditions, is_null_const
     import itertools
 
+    cur_fn = [None]
+
     def atomize(c, atoms):
         """-> nested tuple formula over atom names"""
         c = strip(c)
@@ -1121,6 +1123,20 @@ def r11_optional_parts_independent(prog, res):
                 return ("not", x) if c["op"] == "==" else x
         if "val" in c and isinstance(c["val"], int):
             return ("const", bool(c["val"]))
+        if c["k"] == "Ref" and c.get("dk") == "local" and cur_fn[0] is not None:
+            # a local that is initialised once and never assigned again stands for its initialiser
+            fn_ = cur_fn[0]
+            ini = [v_ for v_ in fn_.walk() if v_["k"] == "Var" and v_.get("d") == c.get("d") and v_.get("ch") and v_["ch"][0] is not None]
+            asg = [a_ for a_ in fn_.walk() if a_["k"] in ("Assign", "Unary") and a_.get("ch") and strip(a_["ch"][0]) is not None and
+                   strip(a_["ch"][0])["k"] == "Ref" and strip(a_["ch"][0]).get("d") == c.get("d") and
+                   (a_["k"] == "Assign" or "++" in (a_.get("op") or "") or "--" in (a_.get("op") or ""))]
+            addr = [u_ for u_ in fn_.walk() if u_["k"] == "Unary" and u_.get("op") == "&" and u_.get("ch") and strip(u_["ch"][0]) is not None and
+                    strip(u_["ch"][0]).get("d") == c.get("d")]
+            if len(ini) == 1 and not asg and not addr and c.get("d") not in atoms.get("#open", ()):
+                atoms.setdefault("#open", set()).add(c.get("d"))
+                r_ = atomize(ini[0]["ch"][0], atoms)
+                atoms["#open"].discard(c.get("d"))
+                return r_
         ap = access_path(c) if c["k"] == "Member" else None
         key = "P:" + ap if ap else "X:" + expr_str(c)
         atoms[key] = c
@@ -1150,6 +1166,7 @@ def r11_optional_parts_independent(prog, res):
     for f in prog.all_functions():
         if f.component != "exppp":
             continue
+        cur_fn[0] = f
         sites = {}
         for m in f.walk():
             # every use of a pointer member path outside a controlling condition: call argument, initialiser of the list-iteration
@@ -1213,6 +1230,56 @@ def r11_optional_parts_independent(prog, res):
                                               " and ".join("`%s` is absent" % (k[2:].split(":", 1)[-1],) for k in bad)))
     res.info["r11_emitted_member_paths"] = n
     res.floor("R11.optional_parts_independent", "printed member paths guarded by a sibling's presence", nsib, 3)
+    # the same for keywords that stand for a flag of the printed object (`tb->flags.unique` -> " UNIQUE"): the parser sets the flags of
+    # one `flags` struct independently, so a keyword that is printed for its flag must not depend on a sibling flag being clear
+    nf = 0
+    for f in prog.all_functions():
+        if f.component != "exppp":
+            continue
+        cur_fn[0] = f
+        emits = []
+        for c in f.calls():
+            if (c.get("fn") or "").rsplit("::", 1)[-1] not in ("wrap", "raw", "exp_output"):
+                continue
+            a = _args(c)
+            s0 = strip(a[0]) if a else None
+            if s0 is None or s0["k"] != "Str" or not re.search(r"[A-Z]{3,}", s0.get("s") or ""):
+                continue
+            emits.append((c, (s0.get("s") or "").strip()))
+        if not emits:
+            continue
+        atoms = {}
+        guards = []
+        for c, kw in emits:
+            g = ("const", True)
+            for cond, br in enclosing_conditions(f, c):
+                x = atomize(cond, atoms)
+                g = ("and", g, x if br == "T" else ("not", x))
+            guards.append((c, kw, g))
+        flags = sorted(k for k, nd in atoms.items() if k.startswith("P:") and ".flags." in k and "*" not in f.ty(nd))
+        for F in flags:
+            mine = [(c, kw, g) for c, kw, g in guards if ev(g, {F: False}) is False and ev(g, {F: True}) is not False]
+            if not mine:
+                continue
+            sibs = [k for k in flags if k != F and k.rsplit(".", 1)[0] == F.rsplit(".", 1)[0]]
+            nf += 1
+            bad = None
+            for si, sib in enumerate(sibs):
+                others = sibs[:si] + sibs[si + 1:]
+                for vals in itertools.product((True, False), repeat=len(others)):
+                    asg = dict(zip(others, vals))
+                    asg[F] = True
+                    if any(ev(g, dict(asg, **{sib: False})) is not False for _c, _k, g in mine) and \
+                            all(ev(g, dict(asg, **{sib: True})) is False for _c, _k, g in mine):
+                        bad = sib
+                        break
+                if bad:
+                    break
+            res.add("R11.flag_keywords_independent", "R11f|%s|%s|%s" % (f.relfile(), f.name, F.split(":", 1)[-1]), f.where(mine[0][0]), bad is None,
+                    "the keyword `%s` printed for `%s` does not depend on a sibling flag" % (mine[0][1], F[2:].split(":", 1)[-1]) if bad is None else
+                    "%s prints `%s` for `%s` only when `%s` is clear: a declaration that carries both flags loses this keyword and the "
+                    "printed schema means something else" % (f.name, mine[0][1], F[2:].split(":", 1)[-1], bad[2:].split(":", 1)[-1]))
+    res.floor("R11.flag_keywords_independent", "keywords printed for a flag of the printed object", nf, 4)
 
 
 LITERAL_KIND = {"Type_Integer": "integer_", "Type_Real": "real_", "Type_Binary": "binary_", "Type_Logical": "logical_", "Type_Boolean": "boolean_",
@@ -1593,6 +1660,89 @@ def r16_reference_spelling_kept(prog, res):
     res.floor("R16.reference_spelling_kept", "sites where TYPE_resolve replaces a reference by the object found", n, 2)
 
 
+def r17_repeat_mark_keeps_kind(prog, res):
+    """The count of a repeated aggregate element (`[elem : count]`) is marked by overwriting the count expression's `type` with
+    Type_Repeat (an INTEGER type with the repeat flag).  The `type` of an expression is also what says which kind of expression it is:
+    both printers and the resolver dispatch on it.  The mark therefore keeps the expression printable only when the expression *is*
+    an integer literal: on every path to a store `X->type = Type_Repeat`, X must have been created as an integer literal
+    (EXPcreate_simple(Type_Integer)) or tested to have the type Type_Integer.  For any other count (`[0 : n]`, `[x : n + 1]`) the
+    expression turns into the integer literal 0 in the printed schema and is never resolved."""
+    import pathstate
+    n = 0
+
+    def base_decl(m):
+        b = strip(m["ch"][0]) if m.get("ch") else None
+        return b.get("d") if b is not None and b["k"] == "Ref" else None
+
+    def is_int_create(v):
+        v = strip(v)
+        while v is not None and v["k"] in ("Cast", "Paren") and v.get("ch"):
+            v = strip(v["ch"][0])
+        return v is not None and v["k"] == "Call" and (v.get("fn") or "") == "EXPcreate_simple" and \
+            any(y["k"] == "Ref" and y.get("n") == "Type_Integer" for y in walk(v))
+
+    for f in prog.all_functions():
+        if f.component not in ("express",) or f.cfg is None:
+            continue
+        marks = [a for a in f.walk() if a["k"] == "Assign" and a.get("op", "=") == "=" and strip(a["ch"][0]) is not None and
+                 strip(a["ch"][0])["k"] == "Member" and strip(a["ch"][0]).get("n") == "type" and strip(a["ch"][1]) is not None and
+                 strip(a["ch"][1])["k"] == "Ref" and strip(a["ch"][1]).get("n") == "Type_Repeat"]
+        if not marks:
+            continue
+        ids = {a["i"]: a for a in marks}
+        bad = {}
+
+        def on_node(nd, ts, env, ids=ids, bad=bad):
+            if nd["i"] in ids:
+                d = base_decl(strip(nd["ch"][0]))
+                if d is None or d not in ts:
+                    bad.setdefault(nd["i"], nd)
+                return ts
+            d = v = None
+            if nd["k"] == "Var" and nd.get("ch") and nd["ch"][0] is not None:
+                d, v = nd.get("d"), nd["ch"][0]
+            elif nd["k"] == "Assign" and nd.get("op", "=") == "=" and strip(nd["ch"][0]) is not None and strip(nd["ch"][0])["k"] == "Ref":
+                d, v = strip(nd["ch"][0]).get("d"), nd["ch"][1]
+            if d is not None:
+                v0 = strip(v)
+                lit = is_int_create(v) or (v0 is not None and v0["k"] == "Ref" and v0.get("d") in ts)
+                s_ = set(ts) - {d}
+                if lit:
+                    s_.add(d)
+                return tuple(sorted(s_))
+            return ts
+
+        def on_edge(cn, br, ts, env):
+            c = strip(cn)
+            flip = False
+            while c is not None and ((c["k"] == "Unary" and c.get("op") == "!") or c["k"] == "Paren") and c.get("ch"):
+                if c["k"] == "Unary":
+                    flip = not flip
+                c = strip(c["ch"][0])
+            if c is None or c["k"] != "Binary" or c.get("op") not in ("==", "!=") or len(c.get("ch") or []) != 2:
+                return ts
+            a, b = strip(c["ch"][0]), strip(c["ch"][1])
+            for x, y in ((a, b), (b, a)):
+                if x is not None and y is not None and x["k"] == "Member" and x.get("n") == "type" and y["k"] == "Ref" and y.get("n") == "Type_Integer":
+                    d = base_decl(x)
+                    if d is not None and (br != flip) == (c["op"] == "=="):
+                        return tuple(sorted(set(ts) | {d}))
+            return ts
+        try:
+            pathstate.walk(f, (), on_node, on_edge=on_edge)
+        except pathstate.Budget as ex:
+            res.broke("R17: %s" % ex)
+            continue
+        for a in marks:
+            n += 1
+            ok = a["i"] not in bad
+            res.add("R17.repeat_mark_keeps_expression_kind", "R17|%s|%s" % (f.relfile(), f.name), f.where(a), ok,
+                    "`%s` is reached only for an integer literal" % expr_str(a)[:50] if ok else
+                    "`%s` is reached for a count that is not known to be an integer literal: the mark overwrites the field that says what "
+                    "kind of expression the count is, so exppp prints `[0 : n]` as `[0 : 0]` and the count is never resolved" % expr_str(a)[:50])
+    res.floor("R17.repeat_mark_keeps_expression_kind", "stores of the repeat mark into an expression's type", n, 1)
+
+
 def run(prog, res, tier):
     gr = Grammar(prog, res)
     if not gr.ok:
@@ -1616,3 +1766,4 @@ def run(prog, res, tier):
     r14_statement_fields_written(prog, res, gr)
     r15_linelength_never_skips_content(prog, res)
     r16_reference_spelling_kept(prog, res)
+    r17_repeat_mark_keeps_kind(prog, res)
